@@ -12,7 +12,7 @@ from vlib.shard import Acc
 PROP = "C07"
 META = {
     "level": "fault_enumeration",
-    "claim": "Held on the executed runs: for each explored history x schedule, every storage create/update/delete call (die immediately before it) and every engine-issued provider create/upload/rename/delete/mkdir call (die immediately after it) of that run is taken in turn as the crash instant; a new engine is started over whatever storage and provider contents existed at that instant, the users carry on, and after quiescence the family oracle must hold (exact mirror / exact merge, no '.conflicted' artefact, no content lost), the persisted cursor must not have run ahead of unprocessed events at the crash instant, and stored rows must only name provider ids that really existed.",
+    "claim": "Held on the executed runs: for each explored history x schedule, every storage create/update/delete call (die immediately before it) and every engine-issued provider create/upload/rename/delete/mkdir call (die immediately after it) of that run is taken in turn as the crash instant; a new engine is started over whatever storage and provider contents existed at that instant, the users carry on, and after quiescence the family oracle must hold (exact mirror / exact merge, no '.conflicted' artefact, no content lost), and the persisted cursor must not have run ahead of unprocessed events at the crash instant.",
     "note": "Trusted: crash = BaseException raised by the tap at the chosen write, after which every engine call and storage write raises too (nothing can be written in finally blocks); Runnable.run swallows it like any exception. Re-runs are not bit-identical (object ids differ), so 'k-th write' is counted per re-run; crash instants that a re-run never reaches are reported as skipped.",
     "technique": "runtime monitoring with fault enumeration: crash injected at every storage write and every engine provider write of each run, then restart + family oracle + cursor/row monitors",
     "plan": {"quick": {"shards": 16, "timeout": 900, "cases": 240},
@@ -79,19 +79,6 @@ class CrashPlan(Monitor):
                     v = c.get(key)
                     if v and v.startswith(root + "/"):
                         self.inflight.append(v[len(root) + 1:])
-        # frozen image: stored rows may only name ids that some provider call has returned (storage never ahead)
-        known = [set(), set()]
-        for c in sim.world.calls + sim.world.user_calls:
-            for key in ("oid", "new_oid"):
-                if c.get(key) is not None:
-                    known[c["side"]].add(c[key])
-        tag = sim.state._tag                                    # pylint: disable=protected-access
-        for eid, b in sim._inner_storage.read_all(tag).items():     # pylint: disable=protected-access
-            r = O.decode_row(b)
-            for side, sk in ((0, "side0"), (1, "side1")):
-                oid = r[sk]["oid"]
-                if oid is not None and oid not in known[side] and sim.taps[side].obj(oid) is None:
-                    self.crash_rows_bad.append((side, str(oid)[:40], r[sk]["path"]))
 
 
 def evaluate(case, obs, sim, monitors):
@@ -101,8 +88,6 @@ def evaluate(case, obs, sim, monitors):
         probs.append(("exception_escaped_step", obs.unhandled[:2]))
     if cur.problems:
         probs.append(cur.problems[0])
-    if plan.crash_rows_bad:
-        probs.append(("storage_names_unknown_provider_id", plan.crash_rows_bad[:2]))
     if obs.trees is None:
         return probs
     L, R = obs.trees
